@@ -62,14 +62,21 @@ CHECKS = {
         "technique": "Coq proof by invariant over the session state machine + exhaustive call-sequence correspondence",
     },
     "C03": {
-        "text": "A filesystem model (FS.v: tree of Dir/File/Link, kernel path walk with physical '..' and ELOOP, mkdir -p/open/symlink/"
-                "unlink/touch/utime/chmod with recorded effects) and the extraction program (ExtractFS.v: sanitising, duplicate renaming, "
-                "directory pre-pass, per-entry dispatch, post-pass). Theorem: for every destination form, every entry list whose link "
-                "members have relative '..'-free targets, on Ok and on error, every effect's real path lies under the destination "
-                "(C03_extract_confined_general); refuted in full generality by the symlink-chain witness (known finding). Correspondence: "
-                "78k (quick) / 975k (thorough) real extractions in chroot jails with an audit hook, outcome/effects/final tree vs model.",
-        "note": "Trusted: Coq kernel; FS.v as a model of Linux path resolution and pathlib 3.12 (validated against the kernel by 1500-20000 "
-                "random op sequences per run); chroot worker + audit hook. Partial: TOCTOU races between parallel workers and kernel "
+        "text": "A filesystem model (FS.v: tree of Dir/File/Link, the kernel's path walk with physical '..', nested link resolution and "
+                "ELOOP after 40 links, os.path.realpath as CPython computes it, mkdir -p/open/symlink/unlink/touch/utime/chmod with "
+                "recorded effects) and the extraction program (ExtractFS.v: sanitising, duplicate renaming, directory pre-pass, per-entry "
+                "dispatch, post-pass, with the real-path check before every output is touched). Theorem C03_extract_confined_all: for "
+                "every well-formed tree in which the destination (absolute, relative, through links, or None) resolves to a directory d, "
+                "EVERY archive (names, kinds, link targets, order, number unrestricted), on Ok and on error, every effect's real path "
+                "lies at or under d; it rests on C03_kernel_agrees (whenever the kernel resolves a path, realpath names the same place). "
+                "The witnesses of the repaired finding C03-symlink-chain are kept as Examples over the unrepaired variant of the model. "
+                "Correspondence: ~100k (quick) / ~1M (thorough) real extractions in chroot jails with an audit hook, outcome/effects/"
+                "final tree vs model, including link chains, links that were in the destination before and a destination reached "
+                "through a link; no archive of the exploration escapes.",
+        "note": "Trusted: Coq kernel; FS.v as a model of Linux path resolution, pathlib 3.12 and os.path.realpath (validated against the "
+                "kernel and os.path.realpath by 1500-20000 random op sequences per run); chroot worker + audit hook. Partial: archives "
+                "without link members of several folders opened by path are extracted by one thread per folder (the links of the tree do "
+                "not change during such a run; interleavings are not modelled); concurrent changes by other processes and kernel "
                 "features outside FS.v are not modelled.",
         "technique": "Coq proof of a confinement invariant on a filesystem model + jail-based correspondence",
     },
